@@ -164,6 +164,16 @@ def replay_call(payload: dict[str, Any]) -> tuple[bool, str]:
     try:
         r = eval(call, ns)  # noqa: S307 - our own harness call text
     except Exception as ex:  # noqa: BLE001
+        import traceback
+
+        frames = traceback.extract_tb(ex.__traceback__)
+        in_harness = bool(frames) and "/xh/" in frames[-1].filename
+        if isinstance(ex, (TypeError, AttributeError)) or (in_harness and isinstance(ex, (ValueError, IndexError, KeyError))):
+            # the kernels call private helpers with hand-made arguments: an exception of this kind
+            # means the helper's interface changed (a refactoring), which says nothing about the
+            # property -- inconclusive (exit 3), never a VIOLATION; the public behaviour is judged by
+            # the path explorer's half of the check
+            return False, f"replay: {call} raised {type(ex).__name__}: {ex} -- kernel interface changed, inconclusive"
         return True, f"replay: {call} raised {type(ex).__name__}: {ex}"
     if r is False:
         return True, f"replay: {call} returned False"
